@@ -1,3 +1,199 @@
 package main
 
-type compiledRegex struct{}
+// regexp intrinsic: MustCompile on a constant pattern, MatchString as native evaluation on
+// concrete strings and as an unrolled Thompson-NFA simulation (pure Bool/BV formula) on bounded
+// symbolic strings. Bytes >= 0x80 are treated as one rune U+FFFD each (exact for ASCII classes).
+
+import (
+	"regexp"
+	"regexp/syntax"
+
+	"golang.org/x/tools/go/ssa"
+)
+
+type compiledRegex struct {
+	pat  string
+	re   *regexp.Regexp
+	prog *syntax.Prog
+}
+
+type regexObj struct{ cr *compiledRegex }
+
+func (w *Worker) compileRegex(pat string) (*compiledRegex, error) {
+	if cr, ok := w.regexCache[pat]; ok {
+		return cr, nil
+	}
+	re, err := regexp.Compile(pat)
+	if err != nil {
+		return nil, err
+	}
+	st, err := syntax.Parse(pat, syntax.Perl)
+	if err != nil {
+		return nil, err
+	}
+	prog, err := syntax.Compile(st.Simplify())
+	if err != nil {
+		return nil, err
+	}
+	cr := &compiledRegex{pat: pat, re: re, prog: prog}
+	w.regexCache[pat] = cr
+	return cr, nil
+}
+
+func runeInstMatchesByte(tc *TermCtx, in *syntax.Inst, b *Term) *Term {
+	// the rune seen for byte b: b if < 0x80 else U+FFFD
+	matchRune := func(r rune) bool { return in.MatchRune(r) }
+	switch in.Op {
+	case syntax.InstRuneAny:
+		return tc.True
+	case syntax.InstRuneAnyNotNL:
+		return tc.Not(tc.Eq(b, tc.BV('\n', 8)))
+	}
+	// build from ASCII truth table, merged into ranges
+	res := tc.False
+	start := -1
+	for c := 0; c <= 128; c++ {
+		m := c < 128 && matchRune(rune(c))
+		if m && start < 0 {
+			start = c
+		}
+		if !m && start >= 0 {
+			lo, hi := start, c-1
+			if lo == hi {
+				res = tc.Or(res, tc.Eq(b, tc.BV(uint64(lo), 8)))
+			} else {
+				res = tc.Or(res, tc.And(tc.Ule(tc.BV(uint64(lo), 8), b), tc.Ule(b, tc.BV(uint64(hi), 8))))
+			}
+			start = -1
+		}
+	}
+	if matchRune(0xFFFD) {
+		res = tc.Or(res, tc.Not(tc.Ult(b, tc.BV(0x80, 8))))
+	}
+	return res
+}
+
+// regexMatch builds the formula "re matches somewhere in s" (MatchString semantics).
+func (ex *Exec) regexMatch(cr *compiledRegex, s Str) *Term {
+	tc := ex.tc
+	if cs, ok := ex.strConcrete(s); ok {
+		return tc.Bool(cr.re.MatchString(cs))
+	}
+	ex.checkOpaque(s, "regexp match")
+	n, b := ex.symParts(s)
+	prog := cr.prog
+	np := len(prog.Inst)
+	capN := len(b)
+	matched := tc.False
+	// active[pc] at current position (before epsilon closure)
+	active := make([]*Term, np)
+	for i := range active {
+		active[i] = tc.False
+	}
+	for pos := 0; pos <= capN; pos++ {
+		posT := tc.BV(uint64(pos), 64)
+		inStr := tc.Ule(posT, n) // position exists (pos <= len)
+		// unanchored search: a match attempt may start at every position
+		active[prog.Start] = tc.Or(active[prog.Start], inStr)
+		// epsilon closure by relaxation
+		atEnd := tc.Eq(n, posT)
+		for round := 0; round < np; round++ {
+			changed := false
+			for pc := 0; pc < np; pc++ {
+				a := active[pc]
+				if a.IsFalse() {
+					continue
+				}
+				in := &prog.Inst[pc]
+				prop := func(to uint32, cond *Term) {
+					nv := tc.Or(active[to], tc.And(a, cond))
+					if nv != active[to] {
+						active[to] = nv
+						changed = true
+					}
+				}
+				switch in.Op {
+				case syntax.InstAlt, syntax.InstAltMatch:
+					prop(in.Out, tc.True)
+					prop(in.Arg, tc.True)
+				case syntax.InstCapture, syntax.InstNop:
+					prop(in.Out, tc.True)
+				case syntax.InstEmptyWidth:
+					cond := tc.True
+					ew := syntax.EmptyOp(in.Arg)
+					if ew&syntax.EmptyBeginText != 0 {
+						cond = tc.And(cond, tc.Bool(pos == 0))
+					}
+					if ew&syntax.EmptyEndText != 0 {
+						cond = tc.And(cond, atEnd)
+					}
+					if ew&(syntax.EmptyBeginLine|syntax.EmptyEndLine|syntax.EmptyWordBoundary|syntax.EmptyNoWordBoundary) != 0 {
+						ex.unsupported("regexp: line/word assertions on symbolic strings")
+					}
+					prop(in.Out, cond)
+				}
+			}
+			if !changed {
+				break
+			}
+		}
+		for pc := 0; pc < np; pc++ {
+			if prog.Inst[pc].Op == syntax.InstMatch {
+				matched = tc.Or(matched, active[pc])
+			}
+		}
+		if pos == capN {
+			break
+		}
+		// consume byte at pos (requires pos < n)
+		hasByte := tc.Ult(posT, n)
+		next := make([]*Term, np)
+		for i := range next {
+			next[i] = tc.False
+		}
+		for pc := 0; pc < np; pc++ {
+			a := active[pc]
+			if a.IsFalse() {
+				continue
+			}
+			in := &prog.Inst[pc]
+			switch in.Op {
+			case syntax.InstRune, syntax.InstRune1, syntax.InstRuneAny, syntax.InstRuneAnyNotNL:
+				m := runeInstMatchesByte(tc, in, b[pos])
+				next[in.Out] = tc.Or(next[in.Out], tc.AndN(a, hasByte, m))
+			}
+		}
+		active = next
+	}
+	return matched
+}
+
+func init() {
+	mk := func(ex *Exec, a []Value) Value {
+		pat := ex.concreteStrArg(a[0], "regexp pattern")
+		cr, err := ex.w.compileRegex(pat)
+		if err != nil {
+			ex.goPanicStr("regexp: Compile(" + pat + "): " + err.Error())
+		}
+		cell := new(Value)
+		*cell = regexObj{cr}
+		return cell
+	}
+	reg("regexp.MustCompile", func(ex *Exec, fn *ssa.Function, a []Value) Value { return mk(ex, a) })
+	reg("regexp.Compile", func(ex *Exec, fn *ssa.Function, a []Value) Value { return Tuple{mk(ex, a), Iface{}} })
+	reg("(*regexp.Regexp).MatchString", func(ex *Exec, fn *ssa.Function, a []Value) Value {
+		p := a[0].(*Value)
+		if p == nil {
+			ex.goPanicStr("runtime error: invalid memory address or nil pointer dereference (nil *regexp.Regexp)")
+		}
+		return ex.regexMatch((*p).(regexObj).cr, a[1].(Str))
+	})
+	reg("(*regexp.Regexp).Match", func(ex *Exec, fn *ssa.Function, a []Value) Value {
+		p := a[0].(*Value)
+		return ex.regexMatch((*p).(regexObj).cr, ex.sliceAsStr(a[1]))
+	})
+	reg("(*regexp.Regexp).String", func(ex *Exec, fn *ssa.Function, a []Value) Value {
+		p := a[0].(*Value)
+		return mkStr((*p).(regexObj).cr.pat)
+	})
+}
